@@ -14,7 +14,7 @@ FOCUS = {'exit': 9, 'tick': 14, 'advance': 10, 'ack': 12, 'terminate_job': 2}
 
 
 def run(res):
-    res.proof_step('Props/C04.v', extra_targets=['Model/Pool.vo'], kernels_needed=['G_pool_shape'])
+    res.proof_step('Props/C04.v', extra_targets=['Model/Pool.vo'], kernels_needed=['G_pool_shape', 'G_pool_pins'])
     n = 150 if res.tier == 'quick' else 6000
     if res.broken:
         n = max(n, 1500)      # failing-input search on the implementation
